@@ -17,6 +17,8 @@ package verifrt
 import (
 	"fmt"
 	"sort"
+	"sync/atomic"
+	"time"
 )
 
 // Preempt is one entry of a preemption plan: when Task executes its K-th yield
@@ -204,6 +206,21 @@ func BeginOp(id int) {
 // EndOp marks the end of the current operation; it returns the number of yields
 // the operation executed.
 func EndOp() int {
+	if atomic.LoadInt32(&unsim) != 0 {
+		// the operation started helper goroutines: wait for them (they have done
+		// their work - the call has returned - but may not have ended yet), then
+		// resume the simulation. A helper that outlives its call is not simulated.
+		for i := 0; atomic.LoadInt32(&foreign) != 0; i++ {
+			if i > 100000 {
+				if rep != nil {
+					rep.Watchdog = true
+				}
+				break
+			}
+			time.Sleep(50 * time.Microsecond)
+		}
+		atomic.StoreInt32(&unsim, 0)
+	}
 	if !on || cur == nil {
 		return 0
 	}
@@ -215,7 +232,31 @@ func EndOp() int {
 }
 
 // Yield is called before every statement of the instrumented library.
+// foreign counts live helper goroutines started by the library (GoStart/GoEnd);
+// unsim is set from the first GoStart of an operation until that operation ends.
+var foreign, unsim int32
+
+// ForeignStarted counts helper goroutines seen (evidence).
+var ForeignStarted uint64
+
+// GoStart is called by the parent right before a `go func(){...}()` statement of
+// the library, GoEnd by the helper when it ends. From the first GoStart to the
+// end of the public call that made it the simulation is suspended (every yield
+// of every goroutine returns at once, simulated locks are real locks): the rest
+// of that call is one atomic step of the schedule - a deterministic rule, as the
+// moment a helper ends is not.
+func GoStart() {
+	atomic.AddInt32(&foreign, 1)
+	atomic.StoreInt32(&unsim, 1)
+	atomic.AddUint64(&ForeignStarted, 1)
+}
+
+func GoEnd() { atomic.AddInt32(&foreign, -1) }
+
 func Yield(site uint32) {
+	if atomic.LoadInt32(&unsim) != 0 {
+		return
+	}
 	if shadowBudget > 0 {
 		// reference execution (yields are otherwise ignored): only a step budget
 		shadowBudget--
